@@ -141,9 +141,6 @@ Proof.
   apply two32_le_max in Hv. apply Z.leb_le in Hv. now rewrite Hv.
 Qed.
 
-Lemma atoi_val_numeral d : numeral_ok d = true -> atoi_val d = digits_val d 0.
-Proof. intros H. unfold atoi_val. now rewrite (atoi_numeral d H). Qed.
-
 Lemma numeral_digits d : numeral_ok d = true -> forallb is_digit d = true /\ d <> [].
 Proof. unfold numeral_ok. destruct d; [discriminate|]. intros H. apply andb_true_iff in H as [H _]. split; [exact H | discriminate]. Qed.
 
@@ -187,52 +184,3 @@ Proof.
     rewrite IH by assumption. simpl. now rewrite <- app_assoc.
 Qed.
 
-(** ** sequence sets of the fragment: one number, or an ordered range *)
-Lemma is_seqset_digits d : forallb is_digit d = true -> d <> [] -> is_sequence_set d = true.
-Proof.
-  intros H Hne. unfold is_sequence_set. destruct d as [|c d]; [congruence|].
-  assert (Hc : is_digit c = true) by (simpl in H; now apply andb_true_iff in H).
-  destruct (digit_facts c Hc) as (_ & _ & E & _).
-  simpl str_eqb. rewrite E. simpl andb at 1.
-  rewrite Hc. simpl orb. rewrite andb_true_r.
-  revert H. apply forallb_impl. intros x Hx. rewrite Hx. now rewrite orb_true_r.
-Qed.
-
-Lemma is_seqset_range a b : forallb is_digit a = true -> a <> [] -> forallb is_digit b = true ->
-  is_sequence_set (a ++ colon :: b) = true.
-Proof.
-  intros Ha Hne Hb. unfold is_sequence_set. destruct a as [|c a]; [congruence|].
-  assert (Hc : is_digit c = true) by (simpl in Ha; now apply andb_true_iff in Ha).
-  destruct (digit_facts c Hc) as (_ & _ & E & _).
-  simpl app. simpl str_eqb. rewrite E. simpl andb at 1. rewrite Hc. simpl orb. rewrite andb_true_r.
-  change (c :: a ++ colon :: b) with ((c :: a) ++ colon :: b). rewrite forallb_app. apply andb_true_iff. split.
-  - revert Ha. apply forallb_impl. intros x Hx. rewrite Hx. now rewrite orb_true_r.
-  - simpl. revert Hb. apply forallb_impl. intros x Hx. rewrite Hx. now rewrite orb_true_r.
-Qed.
-
-Lemma mss_one x d : numeral_ok d = true -> matches_sequence_set x d = (x =? digits_val d 0).
-Proof.
-  intros H. destruct (numeral_digits d H) as [Hd Hne]. unfold matches_sequence_set.
-  rewrite contains_single, (digits_no_colon d Hd). simpl negb.
-  destruct d as [|c d]; [congruence|].
-  assert (Hc : is_digit c = true) by (simpl in Hd; now apply andb_true_iff in Hd).
-  destruct (digit_facts c Hc) as (_ & _ & E & _). simpl str_eqb. rewrite E. simpl.
-  rewrite (atoi_numeral (c :: d) H). apply Z.eqb_sym.
-Qed.
-
-Lemma mss_range x a b : numeral_ok a = true -> numeral_ok b = true ->
-  matches_sequence_set x (a ++ colon :: b) = (digits_val a 0 <=? x) && (x <=? digits_val b 0).
-Proof.
-  intros Ha Hb. destruct (numeral_digits a Ha) as [Hda Hnea]. destruct (numeral_digits b Hb) as [Hdb Hneb].
-  unfold matches_sequence_set. rewrite contains_single, existsb_app. simpl existsb at 2. try rewrite Ascii.eqb_refl.
-  rewrite ?orb_true_r. simpl negb. simpl andb.
-  assert (E1 : str_eqb (a ++ colon :: b) [star] = false).
-  { destruct a as [|c a]; [congruence|]. assert (Hc : is_digit c = true) by (simpl in Hda; now apply andb_true_iff in Hda).
-    destruct (digit_facts c Hc) as (_ & _ & E & _). simpl. now rewrite E. }
-  rewrite E1. unfold split_byte. rewrite split_one_sep by (now apply digits_no_colon). simpl app.
-  assert (E2 : forall d, numeral_ok d = true -> str_eqb d [star] = false).
-  { intros d Hd. destruct (numeral_digits d Hd) as [Hdd Hned]. destruct d as [|c d]; [congruence|].
-    assert (Hc : is_digit c = true) by (simpl in Hdd; now apply andb_true_iff in Hdd).
-    destruct (digit_facts c Hc) as (_ & _ & E & _). simpl. now rewrite E. }
-  rewrite (E2 a Ha), (E2 b Hb). now rewrite !atoi_val_numeral.
-Qed.
